@@ -329,8 +329,8 @@ class Interp:
             k = e["k"]
             if k == "deref":
                 v = self.force(st, self.load(st, root, path))
-                if isinstance(v, (VStr, VOpaque)):
-                    root, path = ("val", v), ()        # &str / opaque handles: pointee is the value itself
+                if isinstance(v, (VStr, VOpaque)) or (isinstance(v, VPy) and v.tag in ("slice", "str")):
+                    root, path = ("val", v), ()        # &str / &[T] views / opaque handles: pointee is the value itself
                     continue
                 if not isinstance(v, VRef):
                     raise Undecided("deref of non-reference %r in %s" % (v, fr.fnkey))
@@ -923,10 +923,22 @@ class Interp:
                         return VInt(Lin(c), bits, signed)
                     raise Undecided("wrapping arithmetic on a symbolic value")
                 return VInt(r, bits, signed)
+            if op in ("Mul", "MulUnchecked", "MulWithOverflow") and (a.t.is_const() or b.t.is_const()):
+                k, t = (a.t.c, b.t) if a.t.is_const() else (b.t.c, a.t)
+                d, cc = lin_parts(t)
+                r = lin_build({s_: kk * k for s_, kk in d.items()}, cc * k)
+                tlo, thi = int_range(bits, signed)
+                lo, hi = st.term_bounds(r)
+                if lo is not None and lo >= tlo and hi <= thi:
+                    return VTuple((VInt(r, bits, signed), VBool(False))) if op.endswith("WithOverflow") else VInt(r, bits, signed)
+                inr = self.cmp(st, r, Lin(tlo), "Ge") and self.cmp(st, r, Lin(thi), "Le")
+                if inr:
+                    return VTuple((VInt(r, bits, signed), VBool(False))) if op.endswith("WithOverflow") else VInt(r, bits, signed)
+                if op.endswith("WithOverflow"):
+                    return VTuple((VOpaque("wrapped"), VBool(True)))
+                raise Undecided("wrapping multiplication on a symbolic value")
             if a.t.is_const() and b.t.is_const():
                 x, y = a.t.c, b.t.c
-                if op in ("Mul", "MulUnchecked"):
-                    return VInt(Lin(x * y), bits, signed)
                 if op == "Div" and y != 0:
                     return VInt(Lin(int(x / y)), bits, signed)
                 if op == "BitAnd":
